@@ -11,10 +11,10 @@ import (
 	"gonum.org/v1/gonum/graph/iterator"
 )
 
-const c13Max = 4
+const c13Max = 6
 
 // Node IDs: non-contiguous, not sorted, one negative.
-var c13IDs = [c13Max]int64{5, 1, 9, -3}
+var c13IDs = [c13Max]int64{5, 1, 9, -3, 12, 7}
 
 // c13Absent is an ID that is never in the graph.
 const c13Absent int64 = 77
